@@ -235,6 +235,12 @@ pub(crate) struct SolverState {
 
     /// Activity score per package.
     name_activity: Vec<f32>,
+
+    /// The decision level at which the current `run_sat` invocation started. Decisions
+    /// at or below this level belong to the solution found for the root requirements
+    /// and the previously accepted soft requirements; they must not be undone while
+    /// trying to add another soft requirement.
+    starting_level: u32,
 }
 
 impl<D: DependencyProvider> Solver<D, NowOrNeverRuntime> {
@@ -445,6 +451,7 @@ impl<D: DependencyProvider, RT: AsyncRuntime> Solver<D, RT> {
             .unwrap_or(0);
 
         let mut level = starting_level;
+        self.state.starting_level = starting_level;
         #[cfg(resolvo_verif)]
         crate::verif::emit(|| crate::verif::Event::RunSat {
             target: root_solvable.solvable().map(|s| s.0),
@@ -1512,8 +1519,11 @@ impl<D: DependencyProvider, RT: AsyncRuntime> Solver<D, RT> {
             );
         }
 
-        // Should revert at most to the root level
-        let target_level = back_track_to.max(1);
+        // Should revert at most to the first level of the current run: level 1 when
+        // solving for the root, the level at which a soft requirement was installed
+        // otherwise. The learnt clause is still unit there because all of its other
+        // literals were assigned at or below `back_track_to`.
+        let target_level = back_track_to.max(self.state.starting_level + 1);
         self.state.decision_tracker.undo_until(target_level);
 
         self.decay_activity_scores();
